@@ -169,6 +169,8 @@ def cases(tier, seed):
                     "shape": list(s), "mode": mode, "tier": tier,
                     "_cost": 0.5 * n + 10})
     # an image whose axes do not start at 0 (a region cut out of a frame)
+    out.append({"id": "fftinv:one-dimensional", "kind": "fft1d",
+                "_cost": 1})
     out.append({"id": "fftinv:shifted-origin", "kind": "fftorigin",
                 "_cost": 1})
     for lay in LAYOUTS:
@@ -812,6 +814,40 @@ def _run_fftinv(case, ck):
     return digest(*acc), {"fft_images": n_img}
 
 
+def _run_fft1d(case, ck):
+    """one-dimensional arrays (a line cut through an image), which fft and
+    ifft document to accept: the inverse of the forward transform"""
+    from holopy.core.process import fft, ifft
+    acc = []
+    for n in (1, 2, 3, 4, 5, 8, 9, 16, 31):
+        a = np.cos(0.7 * np.arange(n)) + 1j * np.sin(0.3 * np.arange(n) ** 2)
+        for shift in (True, False):
+            try:
+                f = fft(a, shift=shift)
+                b = ifft(f, shift=shift)
+                ck.trans += 2
+            except Exception as e:
+                _fail(ck, "fft-accepts", "fft / ifft of a 1-d array of "
+                      "length %d (shift=%r) raised %s: %s" %
+                      (n, shift, type(e).__name__, e))
+                continue
+            ref = np.fft.fft(a)
+            if shift:
+                ref = np.fft.fftshift(ref)
+            e = float(np.abs(np.asarray(f) - ref).max())
+            if not e <= 1e-12:
+                _fail(ck, "fft-vs-numpy", "fft of a 1-d array of length %d "
+                      "(shift=%r) differs from numpy's by %.2e" %
+                      (n, shift, e))
+            e = float(np.abs(np.asarray(b) - a).max())
+            if not (np.shape(b) == a.shape and e <= 1e-12):
+                _fail(ck, "ifft-inverse", "ifft(fft(a)) != a for a 1-d "
+                      "array of length %d (shift=%r): max error %.2e" %
+                      (n, shift, e))
+            acc.append(np.round(ref, 9))
+    return digest(*acc), {"fft_images": 18}
+
+
 def _run_fftorigin(case, ck):
     acc = []
     cx = Ctx(ck, (4, 5), "aniso")          # origin (1.5, -2.25)
@@ -1141,7 +1177,7 @@ def _run_opts(case, ck):
 
 _KINDS = {"history": _run_history, "siunits": _run_siunits,
           "fftinv": _run_fftinv, "noshift": _run_noshift, "group": _run_group,
-          "fftorigin": _run_fftorigin,
+          "fftorigin": _run_fftorigin, "fft1d": _run_fft1d,
           "linear": _run_linear, "list": _run_list, "opts": _run_opts}
 
 
